@@ -8,7 +8,7 @@ CONSTANTS
   Fanout = "locked"
   Slurp = "atomic"
   Now0 = 10
-  Batch = "atomic"
+  Batch = "alert"
   TraceFile = "trace.ndjson"
 CONSTRAINT HighWater
 POSTCONDITION TraceAccepted
